@@ -214,7 +214,11 @@ class IterSim(Sim):
             st.notes["mutate_rejected"] += 1
             return
         st.probes["state_changed_between_iterations"] += 1
-        # live cursors keep their position; what they yield from now on is compared with the rows as they are now
+        # Whether a cursor that was ALREADY live sees the old or the new rows is not prescribed (rows may be taken eagerly at iter()
+        # time, as torch does, or lazily at next() time): such cursors are abandoned.  Iterations started from now on must show the
+        # current rows.
+        for i in [i for i, c in st.its.items() if c["t"] == ev["t"]]:
+            del st.its[i]
 
     def _ev_nested_for(self, st, ev):
         ts = [st.T.get(i) for i in ev["ts"]]
